@@ -71,45 +71,38 @@ def run(prop, tier, replay):
         "local directory cannot be forced (the design model covers every order, the driver one per directory)",
         "object_store::memory::InMemory, LocalFileSystem and TLC are trusted",
     ]
+    rot = ["dec", "low", "mid", "top", "wide"]
     if tier == "quick":
-        k, big_k, mc_k = 3, 4, 3
-        mc_embs = [["dec", "low", "mid", "top", "wide"][seed % 5]]
+        k, big_k = 3, 4
+        mc_runs = [(rot[seed % 5], 3)]
     else:
-        k, big_k, mc_k = 4, 5, 4
-        mc_embs = list(EMBEDDINGS)
+        k, big_k = 4, 5
+        deep = {"dec", rot[1 + seed % 4]}      # 2.0 M states each; the others at 3 entries (123 k states)
+        mc_runs = [(e, 4 if e in deep else 3) for e in rot]
     embs = list(EMBEDDINGS)
     if replay:
         case = json.load(open(replay)).get("case", {})
         embs = [case.get("embed", "low")]
-        mc_embs = []
+        mc_runs = []
     # 1. model-check the design -------------------------------------------------------------------
     states = trans = 0
     mc_info = []
 
-    def mc_one(emb):
-        return emb, vlib.tlc_mc(f"{prop}-mc-{emb}", "ManifestNaming", MC.format(emb=emb, devs="{}", k=mc_k),
-                                workers=6 if len(mc_embs) == 1 else 4, timeout=3000, xmx="6g")
-    with cf.ThreadPoolExecutor(max_workers=3) as ex:
-        mc_results = list(ex.map(mc_one, mc_embs))
-    for emb, r in mc_results:
-        if r["violated"]:
-            out.report({"spec": "ManifestNaming", "invariant": r["violated"]},
-                       f"the design-level model violates {r['violated']} for embedding {emb} (see {r['out']})",
-                       {"embed": emb})
-        zero = [a for a in ACTIONS if r["coverage"].get(a, 0) == 0]
-        if zero and not r["violated"]:
-            raise vlib.ToolError(f"vacuous model run ({emb}): actions never taken {zero}")
-        states += r.get("distinct", 0)
-        trans += r.get("generated", 0)
-        mc_info.append({"embedding": emb, "max_entries": mc_k, "distinct": r.get("distinct"),
-                        "generated": r.get("generated"), "depth": r.get("depth"), "wall_s": r["wall_s"]})
-    # the code as found: the named deviation must break ResolveExact in the model (documents the finding)
-    asbuilt = None
-    if not replay:
+    def mc_one(run_):
+        emb, mk = run_
+        return emb, mk, vlib.tlc_mc(f"{prop}-mc-{emb}", "ManifestNaming", MC.format(emb=emb, devs="{}", k=mk),
+                                    workers=6 if mk == 4 or len(mc_runs) == 1 else 2, timeout=3000, xmx="6g")
+
+    def mc_asbuilt():
+        # the code as found: the named deviation must break ResolveExact in the model (documents the finding)
         r = vlib.tlc_mc(f"{prop}-asbuilt", "ManifestNaming",
                         MC.format(emb="low", devs='{"V2InScanArm"}', k=2), workers=2, timeout=900, xmx="4g",
                         coverage=False, expect_violation=True)
-        asbuilt = {"deviation": "V2InScanArm", "violated_invariant": r["violated"], "wall_s": r["wall_s"]}
+        return {"deviation": "V2InScanArm", "violated_invariant": r["violated"], "wall_s": r["wall_s"]}
+    # (the model runs proceed in the background while the implementation is driven and validated)
+    mc_pool = cf.ThreadPoolExecutor(max_workers=6)
+    mc_futs = [mc_pool.submit(mc_one, r) for r in mc_runs]
+    asbuilt_fut = None if replay else mc_pool.submit(mc_asbuilt)
     # 2. rebuild the harness from /repo's working tree ----------------------------------------------
     binary, build_s = vlib.harness_build("vh_naming")
     # 3. drive the implementation, 4. validate ------------------------------------------------------
@@ -174,6 +167,21 @@ def run(prop, tier, replay):
             pick = [x for x in lines if x.startswith('["resolve"')]
             samples.append({"embedding": emb, "events": [json.loads(x) for x in
                                                          (lines[0], pick[len(pick) // 2], pick[-1])]})
+    mc_results = [f.result() for f in mc_futs]
+    asbuilt = asbuilt_fut.result() if asbuilt_fut else None
+    mc_pool.shutdown()
+    for emb, mc_k, r in mc_results:
+        if r["violated"]:
+            out.report({"spec": "ManifestNaming", "invariant": r["violated"]},
+                       f"the design-level model violates {r['violated']} for embedding {emb} (see {r['out']})",
+                       {"embed": emb})
+        zero = [a for a in ACTIONS if r["coverage"].get(a, 0) == 0]
+        if zero and not r["violated"]:
+            raise vlib.ToolError(f"vacuous model run ({emb}): actions never taken {zero}")
+        states += r.get("distinct", 0)
+        trans += r.get("generated", 0)
+        mc_info.append({"embedding": emb, "max_entries": mc_k, "distinct": r.get("distinct"),
+                        "generated": r.get("generated"), "depth": r.get("depth"), "wall_s": r["wall_s"]})
     rc = out.finish()
     vlib.write_evidence(prop, tier, "model_checking", {
         "states": states, "transitions": trans, "traces_validated_against_impl": accepted,
@@ -186,7 +194,7 @@ def run(prop, tier, replay):
         "bounds": {"entries_in_universe": NE, "max_entries_all_kinds": k, "max_entries_v2_world": big_k,
                    "listing_orders": "all permutations on the non-lexical store; store order on the lexical store; "
                                      "one readdir order per local directory",
-                   "model_max_entries": mc_k},
+                   "model_max_entries": max([mk for _, mk in mc_runs] or [0])},
         "embeddings": per_emb, "model_runs": mc_info, "asbuilt_model": asbuilt,
         "in_scope_resolutions_by_store_and_shape": shapes_total, "out_of_scope": info_total,
         "harness_build_s": build_s,
